@@ -46,6 +46,12 @@ def el_text(el, nl, incname):
         return "#ifdef VD_UNDEFINED" + nl + ("vd__dead = 1 ) ;" + nl) * n + "#endif" + nl
     if k == "active":
         return "#ifndef VD_UNDEFINED" + nl + ("vd__p = 1;" + nl) * n + "#endif" + nl
+    if k == "undef":
+        return "#undef VD_A" + nl
+    if k == "undefmissing":
+        return "#undef VD_NEVER" + nl
+    if k == "else":
+        return "#ifdef VD_UNDEFINED" + nl + ("vd__dead = 1 ) ;" + nl) * n + "#else" + nl + "vd__p = 1;" + nl + "#endif" + nl
     if k == "include":
         return '#include "%s"' % incname + nl
     raise vlib.MachineryError("element " + k)
@@ -86,7 +92,7 @@ def rand_layout(rng, n, depth):
     for _ in range(n):
         ch = rng.random()
         if ch < 0.25:
-            out.append(El(rng.choice(["plain", "lcomment", "define"])))
+            out.append(El(rng.choice(["plain", "lcomment", "define", "undef", "undefmissing"])))
         elif ch < 0.40:
             out.append(El("bcomment", rng.randint(1, 5)))
         elif ch < 0.55:
@@ -94,7 +100,7 @@ def rand_layout(rng, n, depth):
         elif ch < 0.65:
             out.append(El("textcont", rng.randint(1, 3)))
         elif ch < 0.80:
-            out.append(El(rng.choice(["inactive", "active"]), rng.randint(0, 4)))
+            out.append(El(rng.choice(["inactive", "active", "else"]), rng.randint(0, 4)))
         elif depth > 0:
             out.append(Inc(rand_layout(rng, rng.randint(0, 3), depth - 1)))
         else:
